@@ -24,6 +24,17 @@ Lemma map_combine_ext : forall (A B C : Type) (f g : A * B -> C) l,
   (forall p, f p = g p) -> map f l = map g l.
 Proof. intros. apply map_ext. assumption. Qed.
 
+Lemma wm_payloads : forall f xs m,
+  fold_left (wm_acc f) (map inl xs) (m, None) = (fold_left (kreduce_upd f) xs m, None).
+Proof. induction xs as [|x r IH]; intros m; simpl; [reflexivity | apply IH]. Qed.
+
+(* the watermark fold = keyed reduce of the batch, then everything below the watermark removed *)
+Lemma wm_fold_spec : forall f xs ws, wm_fold f xs ws = wm_spec f xs ws.
+Proof.
+  intros f xs ws. destruct ws as [|w [|w2 r]]; try reflexivity; unfold wm_fold, wm_spec;
+    rewrite fold_left_app, wm_payloads; reflexivity.
+Qed.
+
 (* C30 (i): inside a tick every bounded operator equals its list function on the batch *)
 Theorem brun_bspec : forall n bs, brun n bs = bspec n bs.
 Proof.
@@ -32,6 +43,7 @@ Proof.
   - (* BUnique *) apply map_ext. intros xs. apply uniq_items.
   - (* BGen *) apply map_ext. intros xs. apply gen_init.
   - (* BDefer *) apply defer_shift.
+  - (* BReduceKeyedWm *) apply map_ext. intros [xs ws]. apply wm_fold_spec.
 Qed.
 
 Lemma nth_removelast : forall (A : Type) (l : list A) t d,
